@@ -120,6 +120,24 @@ Definition mon_cosim (ins : list N) : bool :=
   | _ => false
   end.
 
+(* kind 164 (C05 at driver level): a blocking driver operation against a scripted device.
+   [gave_up; policy (0 = serves on notify only, 1 = polls, 2 = serves late); n; (event_idx; new; old; ev; uflags)*n]:
+   the rounds in which the operation made buffers available on queues the device serves.  The operation must have
+   returned (gave_up = 0: it never waited on a device that was not told) whenever the device polls, and for a
+   notification-driven device whenever every round was one the specification wants announced *)
+Fixpoint all_required (k : nat) (l : list N) : bool :=
+  match k, l with
+  | S k', eidx :: new :: old :: ev :: uf :: r =>
+      (if eidx =? 1 then need_event ev new old else (N.land uf 1 =? 0)) && all_required k' r
+  | _, _ => true
+  end.
+Definition mon_blocking (ins : list N) : bool :=
+  match ins with
+  | gave_up :: pol :: n :: r =>
+      if (pol =? 0) && negb (all_required (cnt n r) r) then true else gave_up =? 0
+  | _ => false
+  end.
+
 (* kind 160 (C07): [outcome class (0 ok, 1 error, 2 clean panic); delivered length within the buffer;
    number of contract violations the instrumented platform has seen (unshare / dealloc not matching a live
    share / allocation)] *)
@@ -129,8 +147,37 @@ Definition mon_safe (ins : list N) : bool :=
   | _ => false
   end.
 
+(* kind 165 (C07, driver level): one public operation of a driver against an adversarial device:
+   [driver; operation; outcome class; detail (the error code of an Err, the message class of a panic, the signal
+    of a dead process); length returned to the caller; capacity of the buffer that length refers to;
+    platform-contract violations seen so far; heap frees that hit memory shared with the live device, plus caller
+    buffers handed back while the device still owns them, so far].
+   Outcome class: 0 = Ok, 1 = Err, 2 = a panic that unwound cleanly, 3 = the process died (abort, signal: a
+   non-unwinding failure), 4 = the harness itself failed. The clause is: the call ended in a result, an error or a
+   clean panic; no slice handed out or filled by the driver exceeds its backing buffer (the harness supplies length
+   and capacity only for such operations: 0 / 0 elsewhere; a device-reported number that the driver merely passes
+   through - rng, 9p, net (hdr_len, pkt_len) - is not subject to this clause); no unshare / dealloc without a
+   matching live share / allocation; no free of memory the device still owns. *)
+Definition mon_drv_safe (ins : list N) : bool :=
+  match ins with
+  | [drv; op; class; detail; ret; cap; viol; frees] =>
+      (class <=? 2) && (ret <=? cap) && (viol =? 0) && (frees =? 0)
+  | _ => false
+  end.
+
+(* kind 166 (C07, driver level): the same history on the same device answers, once plain and once with the device
+   scribbling over descriptor table and available ring after every driver write:
+   [driver; the caller-visible results are equal; number of result items; first differing item] *)
+Definition mon_drv_indep (ins : list N) : bool :=
+  match ins with
+  | [drv; equal; n; first] => equal =? 1
+  | _ => false
+  end.
+
 Definition queue_monitor (k : N) (ins : list N) : list N :=
   if k =? 160 then [b2n (mon_safe ins)] else
+  if k =? 165 then [b2n (mon_drv_safe ins)] else
+  if k =? 166 then [b2n (mon_drv_indep ins)] else
   (* kind 161 (C03): [pending at the cursor; the used element names the token; the submission is the token's; consumed]:
      a published completion for the presented token is consumed *)
   if k =? 161 then match ins with [pend; names; own; ok] => [b2n (implb ((pend =? 1) && (names =? 1) && (own =? 1)) (ok =? 1))] | _ => [77777] end else
@@ -144,6 +191,7 @@ Definition queue_monitor (k : N) (ins : list N) : list N :=
   (* kind 158 (C02): [instants checked; instants at which an entry below the visible index was incomplete] *)
   if k =? 158 then match ins with [checks; viol] => [b2n (viol =? 0)] | _ => [77777] end else
   if k =? 155 then [b2n (mon_notify ins)] else
+  if k =? 164 then [b2n (mon_blocking ins)] else
   if k =? 156 then [b2n (mon_cosim ins)] else
   if k =? 157 then match ins with [ue; lu] => [b2n (ue =? lu)] | _ => [77777] end else
   if k =? 150 then [b2n (mon_publish ins)] else
